@@ -12,12 +12,9 @@ namespace J2M.C06R
 open J2M.Rend2
 
 /-- render with the flat layout: `generate_code(compose_models_flat(models_map), …)` -/
-def renderFlat (c : RenderCfg) (o : RenderOracles) (g : Graph) (pre : Option String) : Except PyErr (String × NameMap) :=
-  composeFlat g >>= fun l => generateCode c o g (l.map (fun i => Node.mk i [])) [] pre
-
+abbrev renderFlat := Rend2.renderFlat
 /-- render with the nested layout: `generate_code(compose_models(models_map), …)` -/
-def renderNested (c : RenderCfg) (o : RenderOracles) (g : Graph) (pre : Option String) : Except PyErr (String × NameMap) :=
-  composeNested g >>= fun r => generateCode c o g r.1 r.2 pre
+abbrev renderNested := Rend2.renderNested
 
 /-- **generateCode_congr_models**: `genClass` / `renderLevel` / `generateCode` read the graph only through
     `g.models` (`g.find?`): two graphs with the same model table give the same text and the same name map, whatever
@@ -31,7 +28,7 @@ theorem generateCode_congr_models (c : RenderCfg) (o : RenderOracles) {g₁ g₂
 theorem render_ptrs_perm' (c : RenderCfg) (o : RenderOracles) {g₁ g₂ : Graph} (hm : g₁.models = g₂.models)
     (hp : g₁.ptrs.Perm g₂.ptrs) (pre : Option String) :
     renderFlat c o g₁ pre = renderFlat c o g₂ pre ∧ renderNested c o g₁ pre = renderNested c o g₂ pre := by
-  unfold renderFlat renderNested
+  unfold renderFlat renderNested Rend2.renderFlat Rend2.renderNested
   rw [C06.composeFlat_perm hm hp, (C06.composeNested_perm hm hp).2]
   constructor
   · congr 1; funext l; exact generateCode_congr_models c o hm _ _ _
@@ -79,7 +76,7 @@ example : composeNested exG₁ = .ok ([.mk "1A" [.mk "1C" [], .mk "1B" []]], [("
 example : renderNested exCfg exOracles exG₁ none = .ok
     ("from pydantic.v1 import BaseModel, Field\nfrom typing import List, Optional\n\n\nclass Root(BaseModel):\n    class class_(BaseModel):\n        x: int\n        self: Optional['Root.class_'] = None\n\n    class B(BaseModel):\n        c: 'Root.class_'\n\n    b: 'B'\n    c: List['Root.class_']\n",
      [("1A", some "Root"), ("1B", some "B"), ("1C", some "class_")]) := by
-  unfold renderNested
+  unfold renderNested Rend2.renderNested
   rw [composeNested_of_check (roots := [.mk "1A" [.mk "1C" [], .mk "1B" []]]) (inj := [("1C", "1A")]) (by decide +kernel)]
   show generateCode exCfg exOracles exG₁ [.mk "1A" [.mk "1C" [], .mk "1B" []]] [("1C", "1A")] none = _
   exact generateCode_of_eval (by decide +kernel)
